@@ -1,22 +1,76 @@
-(* Spec layer for the FACS (ACPI 6.5 5.2.10), written from SPEC_NOTES.md A.1 (64 bytes, no standard header, no checksum).
-   Case vocabulary (shared with the harness, component 29):
+(* Spec layer for the FACS (ACPI 6.5 5.2.10, Table 5.12), written from SPEC_NOTES.md A.1 (64 bytes, no standard header, no
+   checksum).
+   Case vocabulary (shared with the harness, component 29, and Impl/Facs.v):
      ctor  ()                        FACS::new()
-     ops   none (observations only) *)
+     ops   (10 k v)                  f.<k-th assignable public field> = (v as uN).into(); emits one Num 0; repetitions allowed,
+                                     the last writer of a field wins
+     The assignable public fields: every `pub` field of struct FACS except signature and length (the structure's identity: a
+     caller overwriting them is outside the properties), numbered k in declaration order; the two reserved arrays are private.
+        k  field                offset width        (ACPI 6.5 name)
+        0  hardware_signature      8     4          Hardware Signature
+        1  waking                 12     4          Firmware Waking Vector
+        2  lock                   16     4          Global Lock
+        3  flags                  20     4          Flags
+        4  x_waking               24     8          X Firmware Waking Vector
+        5  version                32     1          Version                (FACS::new() sets 1)
+        6  ospm_flags             36     4          OSPM Flags
+     Domain: the value fits the field (v < 2^(8 width)).
+     observation `1`: the structure is serialised. *)
 From Coq Require Import NArith List Bool.
 From ACPI Require Import Lib.Bytes Lib.Sx Spec.Layout Spec.FixedS.
 Import ListNotations.
 Open Scope N_scope.
 
-Definition facs_ref (ctor : sx) : option (list N) :=
-  match ctor with
-  | SL [] =>
-      lay 64 (LB 0 [70; 65; 67; 83] ++                 (* "FACS" *)
-              [L 4 4 64;                               (* Length *)
-               L 8 4 0; L 12 4 0; L 16 4 0; L 20 4 0;  (* HardwareSignature FirmwareWakingVector GlobalLock Flags *)
-               L 24 8 0;                               (* XFirmwareWakingVector *)
-               L 32 1 1;                               (* Version (crate) *)
-               L 33 3 0; L 36 4 0; L 40 24 0])         (* reserved, OSPMFlags, reserved *)
+(* for every offset at which a field starts, the value last written there: association list (offset, value), newest write
+   first; a field never written holds 0, except Version (offset 32), which the constructor sets to 1 (crate-chosen) *)
+Definition facs_vals := list (N * N).
+
+Definition facs_vals0 : facs_vals := [(32, 1)].
+
+Fixpoint facs_val (v : facs_vals) (off : N) : N :=
+  match v with
+  | [] => 0
+  | (o, x) :: r => if o =? off then x else facs_val r off
+  end.
+
+(* (offset, width) of assignable field k *)
+Definition facs_scalars : list (N * nat) :=
+  [(8, 4%nat) (* Hardware Signature *); (12, 4%nat) (* Firmware Waking Vector *); (16, 4%nat) (* Global Lock *);
+   (20, 4%nat) (* Flags *); (24, 8%nat) (* X Firmware Waking Vector *); (32, 1%nat) (* Version *); (36, 4%nat) (* OSPM Flags *)].
+
+Definition facs_apply (v : facs_vals) (o : sx) : option facs_vals :=
+  match o with
+  | SL [SA 10; SA k; SA x] =>
+      match nth_error facs_scalars (N.to_nat k) with
+      | Some (off, w) => if x <? 2 ^ (8 * N.of_nat w) then Some ((off, x) :: v) else None
+      | None => None
+      end
   | _ => None
   end.
 
-Definition facs_spec : tspec := fixed_spec (ctor_only facs_ref).
+Fixpoint facs_fold (v : facs_vals) (ops : list sx) : option facs_vals :=
+  match ops with
+  | [] => Some v
+  | o :: r => match facs_apply v o with Some v' => facs_fold v' r | None => None end
+  end.
+
+Definition facs_layout (v : facs_vals) : layout :=
+  LB 0 [70; 65; 67; 83] ++                                               (* "FACS" *)
+  [L 4 4 64;                                                             (* Length *)
+   L 8 4 (facs_val v 8) (* Hardware Signature *); L 12 4 (facs_val v 12) (* Firmware Waking Vector *);
+   L 16 4 (facs_val v 16) (* Global Lock *); L 20 4 (facs_val v 20) (* Flags *);
+   L 24 8 (facs_val v 24);                                               (* X Firmware Waking Vector *)
+   L 32 1 (facs_val v 32);                                               (* Version *)
+   L 33 3 0 (* reserved *); L 36 4 (facs_val v 36) (* OSPM Flags *); L 40 24 0 (* reserved *)].
+
+Definition facs_ref_image (ctor : sx) (ops : list sx) : option (list N) :=
+  match ctor with
+  | SL [] =>
+      match facs_fold facs_vals0 ops with
+      | Some v => lay 64 (facs_layout v)
+      | None => None
+      end
+  | _ => None
+  end.
+
+Definition facs_spec : tspec := fixed_spec facs_ref_image.
